@@ -85,3 +85,4 @@ revert a0a84df C05
 revert bf51494 C05
 revert 8ea554b C09
 revert c6447fe C07
+revert fbeb775 C04
